@@ -135,7 +135,11 @@ def run_positive(i):
                 res["viol"] = ("runtime-refuses-legal-program", "libovni aborted a legal mark program: " + r.err[-300:], r.brief())
                 return res
         tdir = os.path.join(wd, "trace")
-        hist, metas = history_from_streams(tdir)
+        try:
+            hist, metas = history_from_streams(tdir)
+        except (OSError, ValueError, KeyError, obs.DecodeError) as ex:
+            res["viol"] = ("trace-unreadable", "what the library wrote for a legal mark program cannot be read back: %s" % ex, {})
+            return res
         # ties across threads make the merged order ambiguous
         for a, b in zip(hist, hist[1:]):
             if a[0] == b[0] and a[1] != b[1]:
